@@ -325,7 +325,7 @@ def seq_conformance(wd, seed):
     return drift
 
 
-def drive(scenarios, wd, tag="conc"):
+def drive(scenarios, wd, tag="conc", env=None):
     """Run gate-scheduled scenarios; a deadlock makes the child exit(3) - continue with the rest in a new child.
     Returns (events by scenario, [(scenario id, events)] deadlocked, [scenario ids] stuck without blocked-in-Lock evidence)."""
     all_events = {}
@@ -334,7 +334,7 @@ def drive(scenarios, wd, tag="conc"):
     rounds = 0
     while todo:
         rounds += 1
-        events, rc, err = run_driver(todo, wd, tag="%s%d" % (tag, rounds), timeout=1500)
+        events, rc, err = run_driver(todo, wd, tag="%s%d" % (tag, rounds), timeout=1500, env=env)
         by = split_scenarios(events)
         all_events.update(by)
         if rc == 0:
@@ -354,7 +354,7 @@ def drive(scenarios, wd, tag="conc"):
                 sc_ = [s for s in todo if s["id"] == last][0]
                 settled = False
                 for again in range(2):
-                    ev2, rc2, err2 = run_driver([sc_], wd, tag="%s_retry%d_%d" % (tag, rounds, again), timeout=600)
+                    ev2, rc2, err2 = run_driver([sc_], wd, tag="%s_retry%d_%d" % (tag, rounds, again), timeout=600, env=env)
                     by2 = split_scenarios(ev2)
                     if rc2 == 0 and last in by2:
                         all_events[last] = by2[last]
@@ -482,6 +482,26 @@ def run(prop, tier, seed):
                 scenarios.append(dict(id=sid, world=dict(nkeys=2), conc=concs[0][1], no_export=True,
                                       ops=[dict(id="mk", kind="create", n=4), dict(id="par", kind="par", gate=False, arrivals=True, ops=pops)]))
                 meta[sid] = None
+        big_scs = []
+        if prop == "C15":
+            # LARGE BATCHES AT THE SAME TIME under FEW processors: every batch names 2 x GOMAXPROCS - 1 keys (one scatter worker per entry,
+            # the largest number of workers a single request gets), six sequential clients send them in rotated and reversed orders -
+            # whatever the requests share besides the key locks (worker pools, semaphores, buffers) is contended here
+            # (each in a driver process of its own that STARTS with that many processors - whatever is sized at first use is sized as
+            # in a daemon started on such a machine)
+            for bi, p_ in enumerate((2, 4) if tier == "quick" else (1, 2, 3, 4, 8)):
+                nk_ = max(2 * p_ - 1, 2)
+                pops = []
+                for lane in range(1, 7):
+                    for j in range(40):
+                        ks = [(lane + j + x) % nk_ for x in range(nk_)]
+                        if (lane + j) % 2:
+                            ks.reverse()
+                        pops.append(dict(id="g%dl%dj%d" % (bi, lane, j), kind="multi", dom="randao", by=("key", "name")[(lane + j) % 2], lane=lane,
+                                         ents=[dict(k=k_, root="R%d" % (j % 5)) for k_ in ks]))
+                sid = "%s-%s-bigbatches%d" % (prop, concs[0][0], bi)
+                big_scs.append((p_, dict(id=sid, world=dict(nkeys=nk_), conc=concs[0][1], no_export=True, gomaxprocs=p_, ops=[dict(id="par", kind="par", gate=False, ops=pops)])))
+                meta[sid] = None
         fu_meta = {}
         if prop == "C15":
             # FIRST USE (Unlock.tla): on a fresh instance every account is still locked; requests naming the same accounts in different
@@ -499,6 +519,12 @@ def run(prop, tier, seed):
                 meta[sid] = None
                 fu_meta[sid] = wants_
         all_events, deadlocks, stuck = drive(scenarios, wd)
+        for p_, sc_ in big_scs:
+            ev_, dl_, st_ = drive([sc_], wd, tag="big%d_" % p_, env=dict(GOMAXPROCS=str(p_)))
+            all_events.update(ev_)
+            deadlocks += dl_
+            stuck += st_
+            scenarios.append(sc_)
         # the SHIPPED PROGRAM under real concurrency: the free-running groups are also sent to the real dirk binary, every request
         # from its own goroutine over TLS; the final database is read through badger
         bin_groups = 0
